@@ -504,7 +504,10 @@ PROPS["C09"] = {
              "harness fault proxy. Case = ring size {128,256,512,4096,65536} x max factor {1,2,4}, 7..50 leader operations through a "
              "MemWaiterServerProtocol (LOCK/UNLOCK on 1..4 keys x DbId 0/1 x 3 LockIds, expiry 60..3600 s or unlimited, ExpriedFlag "
              "0x0100 = logged at once, Timeout 0, Count 0..2, Rcount 0..3 (re-entrant), update flag 0x02, SET/INCR/APPEND value "
-             "operations on lock and unlock), log rotations (Aof.RewriteAofFile as the admin command does), leader restarts (all followers stopped, leader closed and a fresh "
+             "operations on lock and unlock, 4 % of them with payloads of 4000..4100 or 5000..9000 bytes, i.e. at and beyond the 4096-byte batch buffer "
+             "of the live-stream sender), bursts 'LOCK K by a, 0..3 small requests, UNLOCK K by a, LOCK K by b with such a value' of which half are executed while the harness holds "
+             "the write mutex of the leader's replication channels (a socket write that blocks for a moment: the whole burst leaves as one batch), "
+             "log rotations (Aof.RewriteAofFile as the admin command does), leader restarts (all followers stopped, leader closed and a fresh "
              "instance started on the same directory: empty ring, position = last log record; 1 case in 8 is 'workload, quiesce, restart, a follower joins - mostly "
              "with an emptied directory - before the leader's first new write, more workload'), follower join (empty or "
              "emptied directory) / stop / rejoin with its stale directory at drawn positions (before the first record, in the middle, "
@@ -571,11 +574,12 @@ PROPS["C10"] = {
              "check/unlock-first, Count 0..2, Rcount 0..2, expiry 60..600 s logged at once, Timeout 0, SET/INCR/APPEND values; 1 binary script in 3 additionally one LOCK with the concurrent-check flag "
              "and Timeout 1..3 s on a key that preloaded holders keep over its Count: the leader has to queue it, the harness watches 300 ms for an answer, then "
              "releases the holder through the leader and reads the final reply) sent over "
-             "one real TCP connection to the FOLLOWER's port as binary 64-byte frames (2/3) or RESP text 'LOCK key TIMEOUT 0 EXPRIED n "
-             "LOCK_ID hex FLAG f COUNT c RCOUNT r' (1/3), direct in-process followerDB.Lock/UnLock calls, and role steps forcing the "
+             "one real TCP connection to the FOLLOWER's port as binary 64-byte frames (2/3) or RESP text (1/3): 'LOCK|UNLOCK|PUSH key TIMEOUT 0 EXPRIED n "
+             "LOCK_ID hex FLAG f COUNT c+1 RCOUNT r+1' and the key-value commands 'SET k v', 'GET k', 'DEL k' (GET only with a live stream, after the follower caught up: it is a local read), direct in-process followerDB.Lock/UnLock calls, and role steps forcing the "
              "follower into SYNC / FOLLOWER / VOTE / CONFIG (SLock.updateState) between two requests of the same connection; half of "
              "the cases with the replication stream stalled. The requests that were not refused are then sent to the LEADER of a "
-             "second fresh cluster with the same preload. Oracle: every reply through the follower equals the leader's reply to the "
+             "second fresh cluster with the same preload; a text PUSH goes to that leader through the in-memory client (its own text protocol has a listed PUSH finding) and is compared by "
+             "its '+OK' and by the replies of everything after it on the connection. Oracle: every reply through the follower equals the leader's reply to the "
              "same request (result, LCount, LRCount, Count, Rcount, LockId, value bytes; text: identical RESP bytes) or is a refusal "
              "(STATE_ERROR, text '-ERR ...'); a waiting request must not be answered through the follower before the leader path answers it; a direct call answers STATE_ERROR and leaves the node's snapshot unchanged; with the "
              "stream stalled the follower's snapshot (holders, depths, deadlines, values) is identical after every step although the "
